@@ -270,6 +270,11 @@ def classify_receiver(prog, func, recv, kb=None):
     w = ws_of(func, recv, kb)
     if w is not None:
         return 'ws', w
+    if isinstance(recv, ast.IfExp):
+        # (a if c else b).<method>(...): the receiver is one of the two
+        a = classify_receiver(prog, func, recv.body, kb)
+        b = classify_receiver(prog, func, recv.orelse, kb)
+        return a if a[0] == b[0] else ('unknown', norm(recv))
     if isinstance(recv, ast.Name):
         v = _single_assign(func, recv.id)
         if v is not None:
